@@ -78,6 +78,7 @@ func Load(repo string, env []string) (*Prog, error) {
 	}
 	p.NumPkgs = len(p.All)
 	p.Fset = pkgs[0].Fset
+	p.resolveRenamedTypes()
 	prog, _ := ssautil.AllPackages(pkgs, ssa.InstantiateGenerics)
 	prog.Build()
 	p.SSA = prog
@@ -180,6 +181,9 @@ func typeShort(t types.Type) string {
 		o := n.Obj()
 		if o.Pkg() == nil {
 			return o.Name()
+		}
+		if rn, ok := renamedType[n.Origin().Obj()]; ok {
+			return shortPkg(o.Pkg().Path()) + "." + rn
 		}
 		return shortPkg(o.Pkg().Path()) + "." + o.Name()
 	}
@@ -865,7 +869,47 @@ type declFunc struct {
 var renamedKey = map[*ssa.Function]string{}
 
 func sigString(fn *ssa.Function) string {
-	return types.TypeString(fn.Signature, func(p *types.Package) string { return shortPkg(p.Path()) })
+	// types only: parameter and result names are not part of what identifies a helper
+	q := func(p *types.Package) string { return shortPkg(p.Path()) }
+	tuple := func(t *types.Tuple) string {
+		var parts []string
+		for i := 0; i < t.Len(); i++ {
+			parts = append(parts, types.TypeString(t.At(i).Type(), q))
+		}
+		return "(" + strings.Join(parts, ", ") + ")"
+	}
+	s := "func" + tuple(fn.Signature.Params()) + " " + tuple(fn.Signature.Results())
+	if fn.Signature.Variadic() {
+		s += " variadic"
+	}
+	// types that were recognised under a new name appear under their reference name
+	for tn, ref := range renamedType {
+		if tn.Pkg() != nil {
+			q := shortPkg(tn.Pkg().Path()) + "."
+			s = replaceIdent(s, q+tn.Name(), q+ref)
+		}
+	}
+	return s
+}
+
+// replaceIdent replaces old by new in s where old is not followed by an identifier character.
+func replaceIdent(s, old, new string) string {
+	var b strings.Builder
+	for {
+		i := strings.Index(s, old)
+		if i < 0 {
+			b.WriteString(s)
+			return b.String()
+		}
+		j := i + len(old)
+		b.WriteString(s[:i])
+		if j < len(s) && (s[j] == '_' || s[j] >= '0' && s[j] <= '9' || s[j] >= 'a' && s[j] <= 'z' || s[j] >= 'A' && s[j] <= 'Z') {
+			b.WriteString(old)
+		} else {
+			b.WriteString(new)
+		}
+		s = s[j:]
+	}
 }
 
 func recvString(fn *ssa.Function) string {
@@ -980,4 +1024,147 @@ func (p *Prog) resolveRenamed() {
 		}
 	}
 	sort.Strings(p.Renamed)
+}
+
+// ---------- unexported types that were renamed ----------
+//
+// Same idea as for helpers: types_ref.json lists the unexported named types of the reference tree with a fingerprint (the
+// shape of the underlying type with module types blanked, the exported methods). A reference name that no type of the
+// package carries any more is given to the one new type of that package with the same fingerprint; typeShort — and with
+// it every function key of a method — answers with the reference name.
+
+//go:embed types_ref.json
+var typesRefJSON []byte
+
+type declType struct {
+	Pkg   string `json:"pkg"`
+	Name  string `json:"name"`
+	Shape string `json:"shape"`
+	Order int    `json:"order"`
+}
+
+var renamedType = map[*types.TypeName]string{}
+
+func typeShape(tn *types.TypeName) string {
+	blank := func(t types.Type) string {
+		return types.TypeString(t, func(p *types.Package) string {
+			if p.Path() == modPath || strings.HasPrefix(p.Path(), modPath+"/") {
+				return "~"
+			}
+			return p.Path()
+		})
+	}
+	// module type names are blanked entirely (they may be renamed as well)
+	strip := func(s string) string {
+		var b strings.Builder
+		for i := 0; i < len(s); i++ {
+			if s[i] == '~' && i+1 < len(s) && s[i+1] == '.' {
+				b.WriteString("M")
+				i += 2
+				for i < len(s) && (s[i] == '_' || s[i] >= '0' && s[i] <= '9' || s[i] >= 'a' && s[i] <= 'z' || s[i] >= 'A' && s[i] <= 'Z') {
+					i++
+				}
+				i--
+				continue
+			}
+			b.WriteByte(s[i])
+		}
+		return b.String()
+	}
+	var parts []string
+	switch u := tn.Type().Underlying().(type) {
+	case *types.Struct:
+		for i := 0; i < u.NumFields(); i++ {
+			parts = append(parts, strip(blank(u.Field(i).Type())))
+		}
+		parts = []string{"struct{" + strings.Join(parts, ";") + "}"}
+	default:
+		parts = []string{strip(blank(u))}
+	}
+	ms := types.NewMethodSet(types.NewPointer(tn.Type()))
+	var names []string
+	for i := 0; i < ms.Len(); i++ {
+		if ms.At(i).Obj().Exported() {
+			names = append(names, ms.At(i).Obj().Name())
+		}
+	}
+	sort.Strings(names)
+	return parts[0] + " methods:" + strings.Join(names, ",")
+}
+
+// declaredTypes: the unexported named types declared at package level in the module.
+func (p *Prog) declaredTypes() []declType {
+	var out []declType
+	var paths []string
+	for path := range p.All {
+		if path == modPath || strings.HasPrefix(path, modPath+"/") {
+			paths = append(paths, path)
+		}
+	}
+	sort.Strings(paths)
+	for _, path := range paths {
+		pk := p.All[path]
+		if pk.Types == nil {
+			continue
+		}
+		var tns []*types.TypeName
+		sc := pk.Types.Scope()
+		for _, name := range sc.Names() {
+			if tn, ok := sc.Lookup(name).(*types.TypeName); ok && !tn.Exported() && !tn.IsAlias() {
+				tns = append(tns, tn)
+			}
+		}
+		sort.Slice(tns, func(i, j int) bool { return tns[i].Pos() < tns[j].Pos() })
+		for i, tn := range tns {
+			out = append(out, declType{Pkg: shortPkg(path), Name: tn.Name(), Shape: typeShape(tn), Order: i})
+		}
+	}
+	return out
+}
+
+func (p *Prog) resolveRenamedTypes() {
+	var ref []declType
+	if err := json.Unmarshal(typesRefJSON, &ref); err != nil || len(ref) == 0 {
+		return
+	}
+	cur := p.declaredTypes()
+	have := map[string]bool{}
+	for _, d := range cur {
+		have[d.Pkg+"."+d.Name] = true
+	}
+	inRef := map[string]bool{}
+	for _, d := range ref {
+		inRef[d.Pkg+"."+d.Name] = true
+	}
+	type group struct{ pkg, shape string }
+	missing, fresh := map[group][]declType{}, map[group][]declType{}
+	for _, d := range ref {
+		if !have[d.Pkg+"."+d.Name] {
+			missing[group{d.Pkg, d.Shape}] = append(missing[group{d.Pkg, d.Shape}], d)
+		}
+	}
+	for _, d := range cur {
+		if !inRef[d.Pkg+"."+d.Name] {
+			fresh[group{d.Pkg, d.Shape}] = append(fresh[group{d.Pkg, d.Shape}], d)
+		}
+	}
+	for g, ms := range missing {
+		fs := fresh[g]
+		if len(fs) != len(ms) {
+			continue
+		}
+		sort.Slice(ms, func(i, j int) bool { return ms[i].Order < ms[j].Order })
+		sort.Slice(fs, func(i, j int) bool { return fs[i].Order < fs[j].Order })
+		for i := range ms {
+			for path, pk := range p.All {
+				if shortPkg(path) != g.pkg || pk.Types == nil || !(path == modPath || strings.HasPrefix(path, modPath+"/")) {
+					continue
+				}
+				if tn, ok := pk.Types.Scope().Lookup(fs[i].Name).(*types.TypeName); ok {
+					renamedType[tn] = ms[i].Name
+					p.Renamed = append(p.Renamed, "type "+g.pkg+"."+fs[i].Name+" is "+ms[i].Name)
+				}
+			}
+		}
+	}
 }
